@@ -189,6 +189,8 @@ func ruleC12(w *World) {
 	w.ruleKeyImmutability("C12.R6")
 	w.floor("C12.R7", 3)
 	w.rulePubKeyCacheProvenance("C12.R7")
+	w.floor("C12.R8", 4)
+	w.ruleKeygenPure("C12.R8")
 	w.floor("C12.R1", 4)
 	w.floor("C12.R2", 3)
 	w.floor("C12.R3", 2)
@@ -796,17 +798,95 @@ func (w *World) ruleBytepad(rule string) {
 	s := render(padExpr)
 	// accepted exact forms, each evaluated over all residues r = len(buf) mod w, for w in the call-site constants
 	bs, _ := w.constInt(hashPath, "cSHAKE128BlockSize")
-	eval := func(r, wv int64) (int64, bool) {
-		L := "len(append(append(make([]byte,0), leftEncode(" + wp + ")), input))"
-		_ = L
-		switch {
-		case strings.HasPrefix(s, "("+wp+" - (len(") && strings.HasSuffix(s, " % "+wp+"))"):
-			return wv - r, true // w - (len % w)
-		case strings.HasPrefix(s, "(("+wp+" - (len(") && strings.HasSuffix(s, " % "+wp+")) % "+wp+")"):
-			return (wv - r) % wv, true // (w - len % w) % w
+	// the padding length as a function of the residue r = len(buf) mod w: the SSA expression is evaluated with
+	// `len(·) % w` ≡ r and w = the block size; comparisons and phis at the joins of ifs are followed (no string forms)
+	var ev func(v ssa.Value, r, wv int64, d int) (int64, bool)
+	ev = func(v ssa.Value, r, wv int64, d int) (int64, bool) {
+		if d > 12 {
+			return 0, false
+		}
+		v = stripConv(v)
+		switch x := v.(type) {
+		case *ssa.Const:
+			return constInt64(x.Value)
+		case *ssa.Parameter:
+			if x.Name() == wp {
+				return wv, true
+			}
+		case *ssa.BinOp:
+			if x.Op == token.REM {
+				// len(…) % w
+				if c, ok := stripConv(x.X).(*ssa.Call); ok {
+					if b, ok := c.Call.Value.(*ssa.Builtin); ok && b.Name() == "len" {
+						if m, ok := ev(x.Y, r, wv, d+1); ok && m == wv {
+							return r, true
+						}
+					}
+				}
+			}
+			a, ok1 := ev(x.X, r, wv, d+1)
+			b, ok2 := ev(x.Y, r, wv, d+1)
+			if !ok1 || !ok2 {
+				return 0, false
+			}
+			switch x.Op {
+			case token.ADD:
+				return a + b, true
+			case token.SUB:
+				return a - b, true
+			case token.MUL:
+				return a * b, true
+			case token.REM:
+				if b != 0 {
+					return a % b, true
+				}
+			case token.QUO:
+				if b != 0 {
+					return a / b, true
+				}
+			case token.EQL:
+				return b2i(a == b), true
+			case token.NEQ:
+				return b2i(a != b), true
+			case token.LSS:
+				return b2i(a < b), true
+			case token.LEQ:
+				return b2i(a <= b), true
+			case token.GTR:
+				return b2i(a > b), true
+			case token.GEQ:
+				return b2i(a >= b), true
+			}
+		case *ssa.Phi:
+			// value at the join of an if: the edge whose branch condition holds for this residue
+			for i, e := range x.Edges {
+				pred := x.Block().Preds[i]
+				// walk up through straight-line predecessors to the deciding If
+				cur, prev := pred, x.Block()
+				for len(cur.Preds) == 1 && len(cur.Succs) == 1 {
+					prev, cur = cur, cur.Preds[0]
+				}
+				ifi, isIf := cur.Instrs[len(cur.Instrs)-1].(*ssa.If)
+				if !isIf || len(cur.Succs) != 2 {
+					return 0, false
+				}
+				cv, ok := ev(ifi.Cond, r, wv, d+1)
+				if !ok {
+					return 0, false
+				}
+				taken := cur.Succs[1]
+				if cv != 0 {
+					taken = cur.Succs[0]
+				}
+				if taken == prev || (cur == pred && taken == x.Block()) {
+					return ev(e, r, wv, d+1)
+				}
+			}
+			return 0, false
 		}
 		return 0, false
 	}
+	eval := func(r, wv int64) (int64, bool) { return ev(padExpr, r, wv, 0) }
 	bad := []string{}
 	known := true
 	for r := int64(0); r < bs; r++ {
@@ -988,12 +1068,22 @@ func ruleC14(w *World) {
 				off, n int64
 				src    string
 			}
+			type bpiece struct {
+				piece
+				buf  ssa.Value // base of the buffer written
+				from ssa.Value // base of the source (for whole-buffer copies)
+			}
+			var all []bpiece
 			var pieces []piece
 			var buf ssa.Value
 			bad := ""
 			bounds := func(v ssa.Value, at ssa.Instruction) (ssa.Value, int64, int64, bool) {
 				sl, ok := stripConv(v).(*ssa.Slice)
 				if !ok {
+					// the whole buffer
+					if l, h, k := w.lenBound(v, at); k && l == h {
+						return v, 0, l, true
+					}
 					return nil, 0, 0, false
 				}
 				var lo, hi int64 = 0, -1
@@ -1024,11 +1114,7 @@ func ruleC14(w *World) {
 						bad = "a copy into the state buffer has no constant bounds"
 						return
 					}
-					if buf != nil && b != buf {
-						bad = "pieces are written into different buffers"
-					}
-					buf = b
-					pieces = append(pieces, piece{lo, hi - lo, render(cl.Call.Args[1])})
+					all = append(all, bpiece{piece{lo, hi - lo, render(cl.Call.Args[1])}, sliceBase(b), sliceBase(cl.Call.Args[1])})
 				}
 			})
 			for _, p := range pu {
@@ -1037,14 +1123,42 @@ func ruleC14(w *World) {
 					bad = "the counter is not written at a constant offset"
 					continue
 				}
-				if buf != nil && b != buf {
-					bad = "pieces are written into different buffers"
-				}
-				buf = b
 				if hi >= 0 && hi-lo != int64(cnt) {
 					bad = "the counter slot is not 8 bytes"
 				}
-				pieces = append(pieces, piece{lo, int64(cnt), "counter"})
+				all = append(all, bpiece{piece{lo, int64(cnt), "counter"}, sliceBase(b), nil})
+			}
+			// the state may be assembled in a scratch buffer and copied as a whole into the buffer that is returned
+			var scratch ssa.Value
+			for _, bp := range all {
+				if bp.off == 0 && bp.n == int64(keySize+nonce+cnt) && bp.from != nil {
+					isScratch := false
+					for _, o := range all {
+						if o.buf == bp.from {
+							isScratch = true
+						}
+					}
+					if isScratch {
+						scratch, buf = bp.from, bp.buf
+					}
+				}
+			}
+			for _, bp := range all {
+				if scratch != nil && bp.buf == buf && bp.from == scratch {
+					continue // the final whole copy
+				}
+				want := bp.buf
+				if scratch != nil {
+					if bp.buf != scratch {
+						bad = "pieces are written into different buffers"
+					}
+				} else {
+					if buf != nil && want != buf {
+						bad = "pieces are written into different buffers"
+					}
+					buf = want
+				}
+				pieces = append(pieces, bp.piece)
 			}
 			sort.Slice(pieces, func(i, j int) bool { return pieces[i].off < pieces[j].off })
 			okk := bad == "" && len(pieces) == 3 &&
@@ -1243,7 +1357,7 @@ func ruleC14(w *World) {
 		} else {
 			lenEmpty, _ := w.constInt(randomPath, "lenEmptyMessage")
 			for i, e := range ph.Edges {
-				s := render(e)
+				s := strings.ReplaceAll(render(e), "[:][:", "[:") // x[:][:n] is x[:n]
 				pred := ph.Block().Preds[i]
 				last := pred.Instrs[len(pred.Instrs)-1]
 				fs := w.factsAt(last)
@@ -1514,10 +1628,26 @@ func ruleC15(w *World) {
 	if sp := w.method(prgT, "SubPermutation"); sp != nil {
 		nn, m := P(sp, 1), P(sp, 2)
 		w.ruleErrorFacts("C15.R3", sp, []string{m + " < 0", nn + " < " + m})
+		// what Permutation(n) hands back on success, in case both share a worker the rules do not know
+		permVal := ""
+		if pm := w.method(prgT, "Permutation"); pm != nil {
+			for _, r := range returns(pm) {
+				if len(r.Results) == 2 && isNilConst(r.Results[1]) {
+					pv := render(r.Results[0])
+					pv = replaceIdent(replaceIdent(pv, P(pm, 1), nn), P(pm, 0), P(sp, 0))
+					if permVal == "" || permVal == pv {
+						permVal = pv
+					} else {
+						permVal = "?"
+					}
+				}
+			}
+		}
 		for _, r := range returns(sp) {
 			if isNilConst(r.Results[1]) {
 				s := render(r.Results[0])
-				w.check(s == fmt.Sprintf("%s.Permutation(%s)#0[:%s]", P(sp, 0), nn, m), "C15.R2", fnKey(sp)+"/prefix", r.Pos(), "first m entries of a full permutation", "SubPermutation returns "+s)
+				okk := s == fmt.Sprintf("%s.Permutation(%s)#0[:%s]", P(sp, 0), nn, m) || (permVal != "" && permVal != "?" && s == permVal+"[:"+m+"]")
+				w.check(okk, "C15.R2", fnKey(sp)+"/prefix", r.Pos(), "first m entries of a full permutation", "SubPermutation returns "+s)
 			}
 		}
 	}
@@ -1778,4 +1908,11 @@ func rootGlobalOfS(v ssa.Value, seen map[ssa.Value]bool) *ssa.Global {
 		}
 	}
 	return nil
+}
+
+func b2i(b bool) int64 {
+	if b {
+		return 1
+	}
+	return 0
 }
